@@ -133,21 +133,24 @@ HOOKS = {
 # --- get_weekday: reduce the ordinal to the 400-year cycle, then it is a finite table check --------
 YO = "(Z)(cs.y % 400)"
 GW = """
+REVEAL_DAYORD(cs.y, cs.m, cs.d);
+REVEAL_WDAY(ODAY(cs));
 USE(lemma_ord_reduce_REQ(cs.y, cs.m, cs.d), lemma_ord_reduce_ENS(cs.y, cs.m, cs.d), "ord_reduce(cs)");
+USE(lemma_ordbound_REQ(cs.y %% 400, cs.m, cs.d), lemma_ordbound_ENS(cs.y %% 400, cs.m, cs.d), "ordbound");
 USE(lemma_wd_period_REQ(ORD(%(YO)s, cs.m, cs.d), (Z)(cs.y / 400)), lemma_wd_period_ENS(ORD(%(YO)s, cs.m, cs.d), (Z)(cs.y / 400)), "wd_period");
 USE(lemma_wd_cong_REQ(ORD(cs.y, cs.m, cs.d), ORD(%(YO)s, cs.m, cs.d) + (Z)146097 * (Z)(cs.y / 400)), lemma_wd_cong_ENS(ORD(cs.y, cs.m, cs.d), ORD(%(YO)s, cs.m, cs.d) + (Z)146097 * (Z)(cs.y / 400)), "wd_cong");
-STEP(ORD(%(YO)s, cs.m, cs.d) == (Z)ORD_I((int)(cs.y %% 400), cs.m, cs.d), "small ordinal agrees with ORD_I");
+USE(lemma_I_anchor_REQ((int)(cs.y %% 400), cs.m, cs.d), lemma_I_anchor_ENS((int)(cs.y %% 400), cs.m, cs.d), "I_anchor");
+USE(lemma_cong_REQ(%(YO)s, (Z)((int)(cs.y %% 400)), cs.m, cs.d), lemma_cong_ENS(%(YO)s, (Z)((int)(cs.y %% 400)), cs.m, cs.d), "cong");
 USE(lemma_wd_cong_REQ(ORD(%(YO)s, cs.m, cs.d), (Z)ORD_I((int)(cs.y %% 400), cs.m, cs.d)), lemma_wd_cong_ENS(ORD(%(YO)s, cs.m, cs.d), (Z)ORD_I((int)(cs.y %% 400), cs.m, cs.d)), "wd_cong small");
 STEP(WD((Z)ORD_I((int)(cs.y %% 400), cs.m, cs.d)) == (Z)WD_I(ORD_I((int)(cs.y %% 400), cs.m, cs.d)), "weekday of a small ordinal in 32 bits");
 STEP(0 <= wd %% 7 + 6 && wd %% 7 + 6 < 13 && (int)k_weekday_by_mon_off[wd %% 7 + 6] == WD_I(ORD_I((int)(cs.y %% 400), cs.m, cs.d)), "the table formula is the weekday within the cycle");
 """ % dict(YO=YO)
 HOOKS['get_weekday'] = [(r'return k_weekday_by_mon_off', GW)]
+GHOST['get_weekday'] = {0: "REVEAL_VALIDD(cs.y, cs.m, cs.d);"}
+GHOST['get_yearday'] = {0: "REVEAL_VALIDD(cs.y, cs.m, cs.d);\nREVEAL_DAYORD(cs.y, cs.m, cs.d);\nREVEAL_DAYORD(cs.y, 1, 1);"}
 
 # --- next_weekday / prev_weekday ---------------------------------------------------------------------
 # forw[i] is weekday number i%7, back[i] is weekday number (6 - i%7)
-NW_GHOST = """
-USE(lemma_wd_add_REQ(DAYORD_F(cd), 0), lemma_wd_add_ENS(DAYORD_F(cd), 0), "wd_add(cd,0)");
-"""
 LOOPS['next_weekday'] = {
     1: """__CPROVER_assigns(i)
 __CPROVER_loop_invariant(0 <= i && i <= (int)base && (int)base <= 6)
@@ -164,13 +167,14 @@ __CPROVER_decreases(7 - i)""",
 __CPROVER_loop_invariant(i == 6 - (int)base && i + 1 <= j && j <= i + 1 + FM((6 - (int)wd) - (i + 1), 7))
 __CPROVER_decreases(14 - j)""",
 }
+GHOST['next_weekday'] = {0: "BOUND_DAYORD(cd.y, cd.m, cd.d);"}
+GHOST['prev_weekday'] = {0: "BOUND_DAYORD(cd.y, cd.m, cd.d);"}
 HOOKS['next_weekday'] = [
-    (r'return cd \+', 'USE(lemma_wd_add_REQ(DAYORD_F(cd), j - i), lemma_wd_add_ENS(DAYORD_F(cd), j - i), "wd_add(cd, j-i)");'),
+    (r'return cd \+', 'USE(lemma_wd_add_REQ(ODAY(cd), j - i), lemma_wd_add_ENS(ODAY(cd), j - i), "wd_add(cd, j-i)");'),
 ]
 HOOKS['prev_weekday'] = [
-    (r'return cd -', 'USE(lemma_wd_add_REQ(DAYORD_F(cd), j - i), lemma_wd_add_ENS(DAYORD_F(cd), j - i), "wd_add(cd, j-i)");'),
+    (r'return cd -', 'USE(lemma_wd_add_REQ(ODAY(cd), j - i), lemma_wd_add_ENS(ODAY(cd), j - i), "wd_add(cd, j-i)");'),
 ]
-
 
 HOOKS['is_leap_year'] = [(r'return y % 4 == 0', "REVEAL_IDX400(y);\nREVEAL_LEAPI(IDX400(y));\nUSE(lemma_I_anchor_REQ(IDX400(y), 1, 1), lemma_I_anchor_ENS(IDX400(y), 1, 1), \"I_anchor(idx)\");")]
 HOOKS['year_index'] = [(r'return yi < 0', "REVEAL_IDX400(y + (m > 2));")]
